@@ -78,6 +78,55 @@ Proof.
     apply (proj2 (Lat_chr s (cs_in ci (CsChar c)) i k)). exact A.
 Qed.
 
+Section ItemsM.
+Variable B : bool -> bodyp.
+Variable P : lang.
+Variable sl : subl.
+Variables k0 anc : nat.
+Hypothesis Hanc : anc <= k0.
+Hypothesis Hfl : flat sl anc.
+Hypothesis HB : forall sb nx en lo hi, B sb nx en lo hi -> lo <= hi /\ TFC (QV sl k0 (Lat P)) nx en (Rg lo hi).
+
+Lemma ItemFragM_sound it nx entry lo hi : ItemFragM T B it nx entry lo hi ->
+  lo <= hi /\ TFC (QV sl k0 (Lat (item_lang P it))) nx entry (Rg lo hi).
+Proof.
+  destruct it as [sb|sb|]; cbn [ItemFragM item_lang].
+  - apply HB.
+  - intros (body & h & H1 & H2 & H3 & -> & ->). apply HB in H2. destruct H2 as [Hle H2].
+    split; [lia|].
+    eapply TFC_lang; [intros i j; exact (proj2 (Lat_or s (fun _ t _ => t = []) P i j))|].
+    eapply TFC_ext.
+    2:{ eapply TFC_fork; [exact H3|rg| |apply TFC_eps].
+        eapply TFC_after; [exact H1|rg|wkn H2]. }
+    intros i j m0 m1 HQ. apply A_or. destruct HQ as [HQ|[HP ->]]; [right; exact HQ|left].
+    apply A_id; [apply pb_Lat|]. split; [exact (proj2 (Lat_eps s i j) HP)|reflexivity].
+  - intros (body & h & H1 & H2 & H3 & H4 & -> & ->). apply HB in H3. destruct H3 as [Hle H3].
+    split; [lia|].
+    eapply TFC_lang; [intros i j; exact (proj2 (Lat_star s P i j))|].
+    eapply TFC_ext.
+    2:{ eapply TFC_star; [exact H1|exact H4|rg|rg|].
+        eapply TFC_after; [exact H2|rg|wkn H3]. }
+    intros i j m0 m1 HQ. apply (A_star _ k0 anc); [exact Hanc|exact Hfl|apply pb_Lat|exact HQ].
+Qed.
+
+Lemma FragItemsM_sound items : forall next entry lo hi, FragItemsM T B items next entry lo hi ->
+  lo <= hi /\ TFC (QV sl k0 (Lat (items_lang P items))) next entry (Rg lo hi).
+Proof.
+  induction items as [|it rest IH]; intros next entry lo hi H; cbn [FragItemsM] in *.
+  - destruct H as [-> ->]. split; [lia|]. eapply TFC_leaf; [|apply TFC_eps].
+    intros i j. exact (proj2 (Lat_eps s i j)).
+  - destruct H as (n3 & mid & H1 & H2 & H3). apply ItemFragM_sound in H2. apply IH in H3.
+    destruct H2 as [Hl2 H2]. destruct H3 as [Hl3 H3]. split; [lia|].
+    eapply TFC_lang; [intros i j; exact (proj2 (Lat_seq s (item_lang P it) (items_lang P rest) i j))|].
+    eapply TFC_ext.
+    2:{ eapply TFC_seq.
+        - wkn H2.
+        - eapply TFC_before; [exact H1|rg|]. wkn H3. }
+    intros i j m0 m2 HQ.
+    apply (A_seq_flat _ k0 anc); [exact Hanc|exact Hfl|apply pb_Lat|apply pb_Lat|exact HQ].
+Qed.
+End ItemsM.
+
 Theorem FragM_sound x : wf_x x = true -> forall ci nocap k0 anc rep next entry lo hi, anc <= k0 ->
   FragM T x ci nocap k0 next entry lo hi ->
   TFC (QV (subs ci anc rep (S k0) (to_sre nocap x)) k0 (Lat (L ci (to_sre true x)))) next entry (Rg lo hi).
@@ -107,7 +156,30 @@ Proof.
     + apply Hwfsl.
     + rewrite subs_length. apply (Hwfsl B ci anc rep (k0 + count_subs A)).
     + rewrite subs_length. exact HQ.
-  - (* XAlt *) admit.
+  - (* XAlt *) destruct (is_cset (XAlt a b)) eqn:Ecs.
+    + destruct H as (H & -> & ->). eapply TFC_leaf; [|eapply TFC_chr; [exact H|rg]].
+      intros i j HP.
+      apply (proj2 (Lat_ext s _ _ (fun p t n0 => cset_lang (XAlt a b) Ecs Hw ci p t n0) i j)).
+      exact (proj2 (Lat_chr s (cs_in ci (cset_of (XAlt a b))) i j) HP).
+    + apply andb_true_iff in Hw. destruct Hw as [Wa Wb]. destruct (is_fail b) eqn:Ef.
+      * destruct b; try discriminate Ef.
+        pose proof (IHa Wa ci nocap k0 anc rep _ _ _ _ Hanc H) as H'. cbn [to_sre subs].
+        eapply TFC_lang; [|eapply TFC_ext; [|exact H']].
+        { intros i j HP. apply (proj2 (Lat_or s (L ci (to_sre true a)) (L ci Fail) i j)). left; exact HP. }
+        intros i j m0 m1. apply A_widenR.
+      * destruct H as (n1 & n2 & mid & h & H1 & H2 & H3 & -> & ->).
+        pose proof (FragM_le _ _ _ _ _ _ _ _ Wa H1) as Hl1. pose proof (FragM_le _ _ _ _ _ _ _ _ Wb H2) as Hl2.
+        apply (IHa Wa ci nocap k0 anc rep) in H1; [|exact Hanc].
+        apply (IHb Wb ci nocap _ anc rep) in H2; [|lia].
+        cbn [subs].
+        set (A := to_sre nocap a) in *. set (B := to_sre nocap b) in *.
+        eapply TFC_lang; [intros i j; exact (proj2 (Lat_or s (L ci (to_sre true a)) (L ci (to_sre true b)) i j))|].
+        eapply TFC_ext.
+        2:{ eapply TFC_fork; [exact H3|rg| |]; [wkn H1|wkn H2]. }
+        intros i j m0 m1 HQ. apply A_or. destruct HQ as [HQ|HQ]; [left; apply A_widenR; exact HQ|right].
+        apply (A_widenL _ _ k0 anc); [exact Hanc| |].
+        -- rewrite subs_length. apply (Hwfsl B ci anc rep (k0 + count_subs A)).
+        -- rewrite subs_length. exact HQ.
   - (* XBar *) apply IHa; assumption.
   - (* XStar *) destruct H as (body & h & H1 & H2 & H3 & -> & ->).
     pose proof (FragM_le _ _ _ _ _ _ _ _ Hw H2) as Hl.
@@ -141,7 +213,25 @@ Proof.
     2:{ eapply TFC_fork; [exact H2|rg| |apply TFC_eps]. wkn H1. }
     intros i j m0 m1 HQ. apply A_or. destruct HQ as [HQ|[HP ->]]; [right; exact HQ|left].
     apply A_id; [apply pb_Lat|]. split; [exact (proj2 (Lat_eps s i j) HP)|reflexivity].
-  - (* XRep *) admit.
+  - (* XRep *) apply andb_true_iff in Hw. destruct Hw as [Wa Wn].
+    set (A := to_sre nocap a) in *. set (A0 := to_sre true a) in *.
+    assert (Hlang : forall i j, Lat (items_lang (L ci A0) (expand_reps m n)) i j -> Lat (L ci (Rep g m n A0)) i j).
+    { intros i j.
+      apply (proj2 (Lat_ext s _ _ (fun p t n0 => rep_lang (L ci A0) g ci m n A0 p t n0 (fun _ _ _ => iff_refl _) Wn) i j)). }
+    assert (Hgen : TFC (QV (subs ci anc true (S k0) A) k0 (Lat (L ci (Rep g m n A0)))) next entry (Rg lo hi)).
+    { eapply TFC_lang; [exact Hlang|].
+      refine (proj2 (FragItemsM_sound _ (L ci A0) (subs ci anc true (S k0) A) k0 anc Hanc (Hflat _ _ _ _) _ _ _ _ _ _ H)).
+      intros sb nx en lo' hi' HF. destruct sb; cbn [negb] in HF.
+      - rewrite orb_false_r in HF. split; [exact (FragM_le _ _ _ _ _ _ _ _ Wa HF)|].
+        apply (IHa Wa ci nocap k0 anc true); assumption.
+      - rewrite orb_true_r in HF. split; [exact (FragM_le _ _ _ _ _ _ _ _ Wa HF)|].
+        pose proof (IHa Wa ci true k0 anc true _ _ _ _ Hanc HF) as H'.
+        rewrite (subs_nil _ ci anc true (S k0) (count_subs_nocap a)) in H'.
+        eapply TFC_ext; [|exact H']. intros i j m0 m1 HQ.
+        exact (A_widenR [] (subs ci anc true (S k0) A) k0 _ i j m0 m1 HQ). }
+    destruct m as [|m']; [destruct n as [[|n']|]|]; cbn [subs]; try exact Hgen.
+    change (expand_reps 0 (Some 0)) with (@nil rep_item) in H. cbn [FragItemsM] in H. destruct H as [-> ->].
+    eapply TFC_leaf; [|apply TFC_eps]. intros i j HP. apply Hlang. exact (proj2 (Lat_eps s i j) HP).
   - (* XSub *) destruct nocap.
     + apply (IHa Hw ci true k0 anc rep); assumption.
     + destruct H as (n2 & h & H1 & H2 & H3 & -> & ->).
@@ -167,11 +257,29 @@ Proof.
       intros i' j' HL. apply (Lat_in_lang (L ci (to_sre false a)) s i' j').
       apply (proj2 (Lat_ext s _ _ (to_sre_nocap a false ci) i' j')). exact HL.
   - (* XNoCap *) apply IHa; assumption.
-  - (* XWord *) admit.
+  - (* XWord *) destruct H as (nb & h & H1 & H2 & H3 & H4 & H5 & -> & ->).
+    pose proof (FragM_le _ _ _ _ _ _ _ _ Hw H3) as Hl.
+    apply (IHa Hw ci nocap k0 anc rep) in H3; [|exact Hanc].
+    set (A := to_sre nocap a) in *. set (A0 := to_sre true a) in *.
+    replace (subs ci anc rep (S k0) (Seq (Anc Bow) (Seq A (Anc Eow)))) with (subs ci anc rep (S k0) A).
+    2:{ cbn [subs count_subs app]. rewrite app_nil_r, Nat.add_0_r. reflexivity. }
+    eapply TFC_ext.
+    2:{ eapply TFC_seq; [eapply TFC_anc; [exact H5|rg]|].
+        eapply TFC_seq; [eapply TFC_before; [exact H4|rg|wkn H3]|].
+        eapply TFC_after; [exact H1|rg|eapply TFC_anc; [exact H2|rg]]. }
+    intros i j m0 m3 (k1 & m1 & [A1 ->] & (k2 & m2 & Q2 & [A3 ->])).
+    pose proof (fun i j => Lat_nil s (fun p n => anchor_ok Bow p n = true) i j) as NB.
+    pose proof (fun i j => Lat_nil s (fun p n => anchor_ok Eow p n = true) i j) as NE.
+    eapply A_extP; [intros i' j'; exact (proj2 (Lat_seq s (L ci (Anc Bow)) (L ci (Seq A0 (Anc Eow))) i' j'))|].
+    apply A_idl; [apply pb_Lat|apply pb_Lat|].
+    exists k1, m0. split; [split; [apply NB; exact A1|reflexivity]|].
+    eapply A_extP; [intros i' j'; exact (proj2 (Lat_seq s (L ci A0) (L ci (Anc Eow)) i' j'))|].
+    apply A_idr; [apply pb_Lat|apply pb_Lat|].
+    exists k2, m2. split; [exact Q2|]. split; [apply NE; exact A3|reflexivity].
   - (* XAnc *) destruct H as (H & -> & ->). eapply TFC_leaf; [|eapply TFC_anc; [exact H|rg]].
     intros i j. exact (proj2 (Lat_nil s (fun p n => anchor_ok k p n = true) i j)).
   - (* XNoCase *) apply andb_true_iff in Hw. destruct Hw as [Wa _]. apply (IHa Wa true nocap k0 anc rep); assumption.
   - (* XCase *) apply andb_true_iff in Hw. destruct Hw as [Wa _]. apply (IHa Wa false nocap k0 anc rep); assumption.
-Admitted.
+Qed.
 
 End Valid.
